@@ -1218,7 +1218,11 @@ class Module(ABC):
             trainables_and_inds = self._filter_trainables(is_viewed=False)
             self.base.indices_set_by_trainables = trainables_and_inds[0]
             self.base.trainable_params = trainables_and_inds[1]
-            self.base.num_trainable_params -= self.num_trainable_params
+            # A shared parameter that is only partially in view keeps existing for the
+            # rows outside of the view, so count what is left instead of subtracting.
+            self.base.num_trainable_params = sum(
+                len(next(iter(p.values()))) for p in self.base.trainable_params
+            )
         else:
             self.base.indices_set_by_trainables = []
             self.base.trainable_params = []
@@ -2691,15 +2695,18 @@ class View(Module):
             self.base.indices_set_by_trainables, self.base.trainable_params
         ):
             pkey, pval = next(iter(params.items()))
-            trainable_inds_in_view = None
+            # Parameters and states of synapses index into `edges`, everything else
+            # (`radius`, `length`, `v`, channel parameters and states, ...) into `nodes`.
             if pkey in sum(
-                [list(c.channel_params.keys()) for c in self.base.channels], []
-            ):
-                trainable_inds_in_view = np.intersect1d(inds, self._nodes_in_view)
-            elif pkey in sum(
-                [list(s.synapse_params.keys()) for s in self.base.synapses], []
+                [
+                    list(s.synapse_params.keys()) + list(s.synapse_states.keys())
+                    for s in self.base.synapses
+                ],
+                [],
             ):
                 trainable_inds_in_view = np.intersect1d(inds, self._edges_in_view)
+            else:
+                trainable_inds_in_view = np.intersect1d(inds, self._nodes_in_view)
 
             in_view = is_viewed == np.isin(inds, trainable_inds_in_view)
             completely_in_view = in_view.all(axis=1)
